@@ -323,8 +323,8 @@ LEVELS = {
                 "ints separators, unique as NoDup, prefix/suffix with protecting quotes stripped); the date layout builder equals the documented layout "
                 "for every mask and separator triple; the re pattern extraction returns the text between the protecting quotes. The go/ast syntax tree of "
                 "ToStr (the canonical rendering in/unique compare by) is REGENERATED FROM /repo ON EVERY RUN and proved (type switch, strconv calls) to compute "
-                "the model's to_str on every scalar value; so are 22 rule functions (Phone, Email, IDCard, Ip, Ipv4, Ipv6, Year, Year2Month, Date, Datetime, Prefix, Suffix, Int, "
-                "Float, Json, File, Dir, Ints, Unique, In, Include and the in() they share, with CheckFieldIsStr): each writes exactly the predicted text for every rule text, "
+                "the model's to_str on every scalar value; so are all 23 format and content rule functions (Phone, Email, IDCard, Ip, Ipv4, Ipv6, Year, Year2Month, Date, Datetime, Prefix, Suffix, Int, "
+                "Float, Json, File, Dir, Ints, Unique, Re, In, Include and the in() they share, with CheckFieldIsStr): each writes exactly the predicted text for every rule text, "
                 "names and value of any kind — the right recogniser, IP family test, layout mask and separator, kind dispatch, option list and comparison — and "
                 "writes nothing exactly when the model's rule function reports no clause (in(): for every comparison function, by induction over the options). "
                 "Oracle-backed rules: wiring proved, acceptance delegated.",
@@ -333,7 +333,7 @@ LEVELS = {
                 "in-builder round trip proved for options without quotes/slashes only (quoted options: correspondence). Trusted: Coq kernel, translator "
                 "(regex trees; minigo.go) and the semantics of Model/GoToStr.v (strconv.FormatFloat's text is a field of the model's float value) and Model/GoRule.v "
                 "(calls mean the callees' models; net.ParseIP / time.Parse / json.Valid / os.Stat are the oracle tables; function literals of the form return e are values), "
-                "correspondence harness. Re is hand-modelled.",
+                "correspondence harness. The Re theorem speaks about rule texts of bytes (every element below 256).",
         "technique": "Coq proof (regular-language equivalences via Brzozowski derivatives and a two-state scanner; case analysis) + correspondence evaluated in Coq",
     },
     "C20": {
